@@ -235,7 +235,7 @@ void h_submit(void)
 	} else if (started0 < verif_in.max_threads) {
 		if (verif_in.owner) {
 			__CPROVER_assert(g_thread_create == 1 && g_post_needed == 0, "[C12] no idle worker and below the maximum: the owner starts a worker");
-			__CPROVER_assert(v_pool->started_threads == started0 + (verif_in.create_ret >= 0 ? 1 : 0), "[C12] counted iff it was created: never more than max_threads workers");
+			__CPROVER_assert(v_pool->started_threads == started0 + (verif_in.create_ret >= 0 ? 1 : 0), "[C12,C13] counted by the owner iff it was created, before the owner returns (a pool put right after already sees the thread): never more than max_threads workers");
 			__CPROVER_assert(IMPLIES(verif_in.create_ret < 0, g_allocs == g_frees), "[C18] a failed start leaks nothing");
 		} else {
 			__CPROVER_assert(g_post_needed == 1 && g_thread_create == 0 && v_pool->started_threads == started0, "[C12] a continuation submitted from a worker asks the owner to start the thread");
@@ -429,6 +429,7 @@ void h_work_thread(void)
 	__CPROVER_assert(g_ev_reg == 1 && v_thr->kick.handler == iv_work_thread_got_event && v_thr->kick.cookie == v_thr, "[C12] a new worker registers its kick event with the queue-draining handler");
 	__CPROVER_assert(v_thr->idle_timer.handler == iv_work_thread_idle_timeout && v_thr->idle_timer.cookie == v_thr && iv_list_empty(&v_thr->list) && !v_thr->kicked, "[C12] idle timer prepared, not idle, not kicked");
 	__CPROVER_assert(g_start_calls == 1 && g_stop_calls == 0, "[C13] the thread-start hook runs exactly once, before any work");
+	__CPROVER_assert(v_pool->started_threads == verif_in.started, "[C13,C12] a starting worker does not touch the thread count: its creator counted it, so the pool cannot be torn down under a thread that is still starting");
 	__CPROVER_assert(g_post_kick_thr == 1, "[C12] the worker kicks itself once so that it looks at the queue as soon as its loop runs: an item submitted before the thread was up is not missed");
 	CANARY();
 }
@@ -447,7 +448,7 @@ void h_thread_needed(void)
 	g_allocs = g_frees = 0;
 	iv_work_thread_needed(v_pool);
 	__CPROVER_assert(IFF(g_thread_create == 1, !verif_in.idle_present && started0 < verif_in.max_threads), "[C12] the owner starts a thread on request only if none is idle and the maximum is not reached (re-checked under the lock)");
-	__CPROVER_assert(v_pool->started_threads == started0 + ((g_thread_create == 1 && verif_in.create_ret >= 0) ? 1 : 0) && v_pool->started_threads <= verif_in.max_threads, "[C12] never more than max_threads workers");
+	__CPROVER_assert(v_pool->started_threads == started0 + ((g_thread_create == 1 && verif_in.create_ret >= 0) ? 1 : 0) && v_pool->started_threads <= verif_in.max_threads, "[C12,C13] counted by the owner iff created; never more than max_threads workers");
 	__CPROVER_assert(IMPLIES(g_thread_create == 1 && verif_in.create_ret < 0, g_allocs == g_frees), "[C18] a failed start leaks nothing");
 	__CPROVER_assert(!g_lock_held && g_lock_acq == 1, "[C12,C14] under the pool lock");
 	CANARY();
